@@ -4,6 +4,7 @@
 package main
 
 import (
+	_ "time/tzdata" // the checks run time-dependent families under several TZ values
 	"bufio"
 	"encoding/hex"
 	"encoding/json"
